@@ -209,6 +209,121 @@ fn cutopen(out: &mut Out, sim: &mut Sim, idx_len: u64, fid: u32, flen: Option<u6
     out.count("cutopen");
 }
 
+/// the (fid, off) of every index entry currently on disk
+fn read_index(dir: &Path) -> Vec<(u32, u64)> {
+    let idx = fs::read(dir.join("INDEX")).unwrap_or_default();
+    idx.chunks_exact(12)
+        .map(|c| (u32::from_le_bytes(c[0..4].try_into().unwrap()), u64::from_le_bytes(c[4..12].try_into().unwrap())))
+        .collect()
+}
+
+/// A batch of appends with no sync in between (what `Freezer::freeze` does), then every sampled
+/// cut of the index (from its size before the batch) and of the final head file (from its size
+/// before the batch, or from nothing / missing when the batch rolled over).
+#[allow(clippy::too_many_arguments)]
+fn batch_append(out: &mut Out, rng: &mut Rng, sim: &mut Sim, max: u64, counter: &mut u8, all_cuts: bool, rollovers: &mut usize, cuts: &mut usize) {
+    let before = read_index(&sim.dir);
+    let idx_before = before.len() as u64 * 12;
+    let (head_before, head_len_before) = *before.last().unwrap();
+    let k = rng.range(2, 4);
+    for _ in 0..k {
+        let item = gen_item(rng, max, counter);
+        let f = sim.f.as_mut().unwrap();
+        let number = f.number();
+        let r = f.append(number, &item);
+        out.op(&format!("append {}", hex(&item)), if r.is_ok() { "ok" } else { "err" });
+        out.count("append-batched");
+        if r.is_err() {
+            out.oracle_fail("append-fails", "append on a healthy freezer");
+            return;
+        }
+        sim.items.push(item);
+    }
+    let _ = sim.f.as_mut().unwrap().sync_all();
+    let after = read_index(&sim.dir);
+    let idx_after = after.len() as u64 * 12;
+    let (head, head_len) = *after.last().unwrap();
+    let rolled = head != head_before;
+    if rolled {
+        *rollovers += 1;
+        out.count("batch-rollover");
+    }
+    let lo = if rolled { 0 } else { head_len_before };
+    let mut idx_lens: Vec<u64> = vec![idx_before, idx_after];
+    let mut b = idx_before;
+    while b <= idx_after {
+        for d in [0i64, -1, 1, 5] {
+            let v = b as i64 + d;
+            if v >= idx_before as i64 && v <= idx_after as i64 {
+                idx_lens.push(v as u64);
+            }
+        }
+        b += 12;
+    }
+    let mut data_lens: Vec<Option<u64>> = vec![Some(lo), Some(head_len)];
+    for &(f, o) in after.iter().skip(before.len()) {
+        if f == head {
+            for d in [0i64, -1, 1] {
+                let v = o as i64 + d;
+                if v >= lo as i64 && v <= head_len as i64 {
+                    data_lens.push(Some(v as u64));
+                }
+            }
+        }
+    }
+    for _ in 0..(if all_cuts { 6 } else { 2 }) {
+        data_lens.push(Some(rng.range(lo, head_len)));
+        idx_lens.push(rng.range(idx_before, idx_after));
+    }
+    if rolled {
+        data_lens.push(None);
+    }
+    idx_lens.sort();
+    idx_lens.dedup();
+    data_lens.sort();
+    data_lens.dedup();
+    let expect_full = sim.items.clone();
+    let min_keep_of = |il: u64, dl: Option<u64>| -> usize {
+        // items are numbered from 1 = index entry 1; fully written = entry inside `il` bytes and
+        // data in an older file or inside the first `dl` bytes of the head file
+        let m = dl.unwrap_or(0);
+        let mut n = 0;
+        for (i, &(f, o)) in after.iter().enumerate().skip(1) {
+            let entry_ok = (i as u64 + 1) * 12 <= il;
+            let data_ok = f < head || o <= m;
+            if entry_ok && data_ok { n = i; } else { break; }
+        }
+        n
+    };
+    sim.f = None;
+    for &il in &idx_lens {
+        for &dl in &data_lens {
+            cutopen(out, sim, il, head, dl, &expect_full, min_keep_of(il, dl));
+            *cuts += 1;
+        }
+    }
+    let il = *rng.pick(&idx_lens);
+    let dl = *rng.pick(&data_lens);
+    let keep = min_keep_of(il, dl);
+    apply_cut(&sim.dir, il, head, dl);
+    out.op(&format!("cut {} {} {}", il, head, dl.map(|l| l.to_string()).unwrap_or("rm".into())), "ok");
+    out.count("cut-batch");
+    // reopen (destructive)
+    match open_dir(&sim.dir, sim.max) {
+        Ok(mut f) => {
+            let n = Sim::check_prefix(out, &mut f, &expect_full, keep, "after batch cut + open");
+            out.op("open", &format!("ok {}", f.number()));
+            sim.items = expect_full[..n.min(expect_full.len())].to_vec();
+            sim.f = Some(f);
+        }
+        Err(e) => {
+            out.oracle_fail("open-fails", &format!("{e}"));
+            out.op("open", "err");
+        }
+    }
+    out.count("open");
+}
+
 fn run_case(out: &mut Out, rng: &mut Rng, base: &Path, n_ops: usize, all_cuts: bool) {
     let max = *rng.pick(&[20u64, 32, 50, 64, 100]);
     let dir = base.join("main");
@@ -246,7 +361,10 @@ fn run_case(out: &mut Out, rng: &mut Rng, base: &Path, n_ops: usize, all_cuts: b
         if sim.f.is_none() {
             break;
         }
-        match rng.below(20) {
+        match rng.below(24) {
+            20..=23 => {
+                batch_append(out, rng, &mut sim, max, &mut counter, all_cuts, &mut rollovers, &mut cuts);
+            }
             0..=11 => {
                 // append, with crash cuts
                 let item = gen_item(rng, max, &mut counter);
@@ -504,5 +622,5 @@ pub fn run(opts: &Opts) {
         }
     }
     let _ = fs::remove_dir_all(&base);
-    out.finish("random append/truncate/reopen histories on the real FreezerFiles (compression off, max_file_size 20..100 bytes, item sizes biased to the rollover boundary); after every append every (index length, head-file length | missing) cut pair between the pre- and post-append sizes is materialised on a copy and re-opened; a case is non-trivial iff it contains a rollover and at least one cut; distinct by (max, item-length list)");
+    out.finish("random append/truncate/reopen histories on the real FreezerFiles (compression off, max_file_size 20..100 bytes, item sizes biased to the rollover boundary); after every append every (index length, head-file length | missing) cut pair between the pre- and post-append sizes is materialised on a copy and re-opened; batches of 2-4 unsynced appends are cut anywhere between the pre-batch and final sizes (entry boundaries +-1, random points); a case is non-trivial iff it contains a rollover and at least one cut; distinct by (max, item-length list)");
 }
